@@ -113,9 +113,7 @@ class Describer:
             if k.tag == "none":
                 d["fields"][f] = None
                 continue
-            from .state import V
-            term = z3.Select(E.arr(st, E._fkey(f, k), z3.IntSort(), sort_of(k)), rt)
-            d["fields"][f] = self.value(V(k, term))
+            d["fields"][f] = self.value(E._read_alt(st, rt, f, k))
         return {"__obj__": key}
 
     def list_(self, ek, r):
@@ -297,7 +295,10 @@ class _OldRewriter(ast.NodeTransformer):
 
 def native_namespace(R=None):
     R = R or REG
-    ns = {"implies": lambda a, b: (not a) or b, "math": math}
+    import re as _re
+    ns = {"implies": lambda a, b: (not a) or b, "math": math,
+          "fullmatch": lambda pat, s: isinstance(s, str) and _re.fullmatch(pat, s) is not None,
+          "fresh": lambda x: True}
     for name, sf in R.specfns.items():
         def mk(sf=sf):
             def f(*args):
